@@ -152,17 +152,17 @@ def plan(tier, seed):
     p.modules.append(("yuvxyb-math/src/lib.rs", open(os.path.join(here, "..", "harness", "math_stub_lib.rs")).read()))
     hs = []
     # (a) decode: pointwise + layout independence on symbolic-geometry frames with symbolic contents
-    inst = [("u8", 1, 1, 2, 2), ("u16", 1, 0, 2, 1)]
+    inst = [("u8", 1, 1, 2, 2)]
     if thorough:
-        inst += [("u8", 0, 0, 2, 1), ("u8", 2, 0, 4, 1), ("u8", 0, 1, 2, 2), ("u8", 1, 1, 4, 2), ("u16", 0, 0, 2, 2), ("u8", 2, 2, 4, 4)]
+        inst += [("u16", 1, 0, 2, 1), ("u8", 0, 0, 2, 1), ("u8", 2, 0, 4, 1), ("u8", 0, 1, 2, 2), ("u8", 1, 1, 4, 2), ("u16", 0, 0, 2, 2), ("u8", 2, 2, 4, 4)]
     txt = geom.PRELUDE
     for k, (T, sx, sy, w, h) in enumerate(inst):
         n = "k_c11_dec_%s_ss%d%d_%dx%d" % (T, sx, sy, w, h)
-        txt += geom.decode_harness(T, sx, sy, w, h, n, 8 if T == "u8" else 10, symbolic_content=True, pointwise=True, ue=k % 2, ve=(k + 1) % 2)
+        txt += geom.decode_harness(T, sx, sy, w, h, n, 8 if T == "u8" else 10, symbolic_content=True, pointwise=True, ue=k % 2, ve=(k + 1) % 2, keepcmp=thorough, full=(k % 2 == 1))
         hs.append(dict(name=n, family="decode", timeout=3000 if thorough else 1500, mem_gb=20, unwind_rules=geom.decode_rules(w, h), replay=dec_replay,
                        dec=dict(T=T, w=w, h=h, ssx=sx, ssy=sy, bd=8 if T == "u8" else 10), covers=["accepted", "decoded"],
                        obligation="decode %s %dx%d subsampling (%d,%d): output pixel (x,y) is bit-identical to the kernels applied to Y(x,y), U/V(x>>ss_x,y>>ss_y) computed from the visible window only - hence independent of stride, origin, padding and padding contents; source unmodified" % (T, w, h, sx, sy),
-                       sym="all samples of all three buffers symbolic (padding included); luma origin, chroma window sizes and origins symbolic; range symbolic"))
+                       sym="all samples of all three buffers symbolic (padding included); luma origin, chroma window sizes and origins symbolic; range concrete per instance (a symbolic range makes scale/offset symbolic: symbolic x symbolic fused multiply-adds)"))
     txt += geom.EPILOGUE
     p.modules.append(("src/yuv_rgb.rs", txt))
     # (b) encode
